@@ -301,7 +301,7 @@ def _sld(ctx):
 
 
 # ------------------------------------------------------------------------------ R4 Cromer-Mann
-def _cromer(ctx, F):
+def _cromer(ctx, F, R="R4"):
     w = World(ctx.src, loaders=())
     I = w.I
     I.stubs["core.get_data_path"] = lambda I_, a, k: "/data"
@@ -317,18 +317,18 @@ def _cromer(ctx, F):
     arms = algebra._arms(sp.sympify(val))
     fin = [(ex, cs) for ex, cs in arms if not ex.has(sp.nan)]
     nans = [(ex, cs) for ex, cs in arms if ex.has(sp.nan)]
-    ctx.check(len(fin) == 1, "R4", "atstol has one finite arm", f"{_s(val, 200)}", s_at)
+    ctx.check(len(fin) == 1, R, "atstol has one finite arm", f"{_s(val, 200)}", s_at)
     if len(fin) == 1:
-        eq(ctx, "R4", "f0(s) = sum a_i exp(-b_i s^2) + c inside the fitted range", fin[0][0], inside, s_at)
-        eq(ctx, "R4", "f0 -> sum a_i + c as s -> 0 (the electron count Z - charge, see the data lint)", fin[0][0].subs(s, 0), sum(a) + c, s_at)
+        eq(ctx, R, "f0(s) = sum a_i exp(-b_i s^2) + c inside the fitted range", fin[0][0], inside, s_at)
+        eq(ctx, R, "f0 -> sum a_i + c as s -> 0 (the electron count Z - charge, see the data lint)", fin[0][0].subs(s, 0), sum(a) + c, s_at)
     lim = I.getattr(cm, "stollimit")
     good = len(nans) == 1 and any(isinstance(cnd, (sp.Gt, sp.Lt, sp.Ge, sp.Le)) and sp.simplify((cnd.lhs - cnd.rhs) - (s - lim)) == 0
                                   and isinstance(cnd, (sp.Gt, sp.Ge)) for cnd in nans[0][1]) if nans else False
-    ctx.check(good, "R4", "f0 is NaN exactly when sin(theta)/lambda itself exceeds stollimit",
+    ctx.check(good, R, "f0 is NaN exactly when sin(theta)/lambda itself exceeds stollimit",
               f"NaN arm condition {[str(x) for _, cs in nans for x in cs]}, expected s > {lim}", s_at)
-    ctx.check(lim == 6, "R4", "stollimit is 6 1/Ang, i.e. Q = 24 pi", f"stollimit = {lim}", s_at)
+    ctx.check(lim == 6, R, "stollimit is 6 1/Ang, i.e. Q = 24 pi", f"stollimit = {lim}", s_at)
     vv = I.call(I.getattr(cm, "atstol"), [Vec([s, sp.Integer(7)])], {})
-    ctx.check(isinstance(vv, Vec) and len(vv) == 2 and vv.items[1] is sp.nan, "R4", "vector call: an entry beyond the limit is NaN, shape kept",
+    ctx.check(isinstance(vv, Vec) and len(vv) == 2 and vv.items[1] is sp.nan, R, "vector call: an entry beyond the limit is NaN, shape kept",
               f"{_s(vv, 200)}", s_at)
     # Q -> s and the key
     s_q = fsite(ctx, "cromermann.fxrayatq")
@@ -341,14 +341,15 @@ def _cromer(ctx, F):
     Q = sp.Symbol("Q", positive=True)
     vq = I.call(I.global_name("cromermann", "fxrayatq"), ["Fe", Q], {"charge": sp.Integer(0)})
     finq = [ex for ex, cs in algebra._arms(sp.sympify(vq)) if not ex.has(sp.nan)]
-    eq(ctx, "R4", "fxrayatq evaluates the formula at s = Q / (4 pi)", finq[0], inside.subs(s, Q / (4 * sp.pi)), s_q)
+    eq(ctx, R, "fxrayatq evaluates the formula at s = Q / (4 pi)", finq[0], inside.subs(s, Q / (4 * sp.pi)), s_q)
     s_k = fsite(ctx, "cromermann.fxrayatstol")
     fx = I.global_name("cromermann", "fxrayatstol")
     for sym, ch, want in (("Fe", 2, "Fe2+"), ("O", -2, "O2-"), ("Na", 1, "Na1+"), ("Cl", -1, "Cl1-"), ("Fe", 0, "Fe"), ("Fe", None, "Fe"),
-                          ("Ca2+", None, "Ca2+"), ("Na+", None, "Na1+"), ("Cl-", None, "Cl1-"), ("Fe3+", 2, "Fe2+"), ("Siva", None, "Siva")):
+                          ("Ca2+", None, "Ca2+"), ("Na+", None, "Na1+"), ("Cl-", None, "Cl1-"), ("Fe3+", 2, "Fe2+"), ("Siva", None, "Siva"),
+                          ("Ca2+", 0, "Ca"), ("O2-", 0, "O"), ("Fe3+", -2, "Fe2-"), ("Cl-", 1, "Cl1+")):
         del keys[:]
         I.call(fx, [sym, s], {"charge": None if ch is None else sp.Integer(ch)})
-        ctx.check(keys == [want], "R4", f"lookup key for symbol '{sym}', charge {ch} is '{want}'", f"looked up {keys}", s_k)
+        ctx.check(keys == [want], R, f"lookup key for symbol '{sym}', charge {ch} is '{want}'", f"looked up {keys}", s_k)
     # every ion record of the data file is reachable through (symbol, charge)
     text = ctx.src.data_file("periodictable/xsf/f0_WaasKirf.dat")
     filekeys = [l.split()[2] for l in text.split("\n") if l.startswith("#S")]
@@ -362,7 +363,7 @@ def _cromer(ctx, F):
         I.call(fx, [sym, s], {"charge": sp.Integer(int(n) * (1 if sg == "+" else -1))})
         if keys != [k]:
             bad.append((k, list(keys)))
-    ctx.check(not bad, "R4", "the key built from (symbol, charge) is exactly the data file's key for every ion record", f"{bad[:4]}", s_k,
+    ctx.check(not bad, R, "the key built from (symbol, charge) is exactly the data file's key for every ion record", f"{bad[:4]}", s_k,
               sample={"ion records": sum(1 for k in filekeys if re.search(r"\d[+-]$", k))})
     # Xray.f0 passes the element's own symbol and charge
     w2 = xworld(ctx)
@@ -373,5 +374,5 @@ def _cromer(ctx, F):
         del seen[:]
         I2.call(I2.getattr(I2.getattr(w2.atoms[kind], "xray"), "f0"), [Q], {})
         got = [(a_, int(b_)) for a_, b_ in seen]
-        ctx.check(got == [want], "R4", f"{kind}.xray.f0 asks for symbol {want[0]} with charge {want[1]}", f"asked {got}", fsite(ctx, "xsf.Xray.f0"))
-    ctx.floor("R4", 22)
+        ctx.check(got == [want], R, f"{kind}.xray.f0 asks for symbol {want[0]} with charge {want[1]}", f"asked {got}", fsite(ctx, "xsf.Xray.f0"))
+    ctx.floor(R, 26)
